@@ -108,11 +108,11 @@ class Engine:
 		wire = [codec.dumps(case['value']) for case in cases]
 		lines = []
 		for text in wire:
-			lines += [f'enc {self.sid} {type_name} {text}', f'size {self.sid} {type_name} {text}', f'json {self.sid} {type_name} {text}']
+			lines += [f'enc {self.sid} {type_name} {text}', f'size {self.sid} {type_name} {text}', f'json {self.sid} {type_name} {text}', f'adm {self.sid} {type_name} {text}']
 			if is_struct:
 				lines.append(f'layout {self.sid} {type_name} {text}')
 		answers = self.ask_many(lines)
-		stride = 4 if is_struct else 3
+		stride = 5 if is_struct else 4
 
 		mutant_lines = []
 		mutant_meta = []
@@ -148,9 +148,19 @@ class Engine:
 				if impl_json is not None and rendered != f'ok {impl_json}':
 					ctx.fail('corr', f'{net.name}.{type_name}: model to_json differs', dict(ident, model=rendered, implementation=impl_json))
 
+				# the theorems' hypothesis: every generated value must be admissible in the model (non-vacuity of `roundtrip`)
+				admissible = answers[stride * index + 3]
+				ctx.count(f'admissible:{admissible}')
+				if 'ok true' != admissible and self.has_empty_self_tested_member(type_name, value):
+					# `Adm` is a sufficient condition: it excludes a present-but-empty member whose own truthiness guards it
+					# (NEM parent_name == b''); the implementation is run at that excluded point here and must still round-trip
+					ctx.count('outside-adm:empty-self-tested-member')
+				elif 'ok true' != admissible:
+					ctx.fail('corr', f'{net.name}.{type_name}: a value the implementation round-trips is not admissible in the model ({admissible})', ident)
+
 			spans = None
-			if is_struct and answers[stride * index + 3] and answers[stride * index + 3].startswith('ok '):
-				spans = [part.split(':') for part in answers[stride * index + 3][3:].split(',') if ':' in part]
+			if is_struct and answers[stride * index + 4] and answers[stride * index + 4].startswith('ok '):
+				spans = [part.split(':') for part in answers[stride * index + 4][3:].split(',') if ':' in part]
 			for mutant, label in self.mutants(data, spans, mutants_per_value):
 				mutant_lines.append(f'dec {self.sid} {type_name} {mutant.hex().upper() if mutant else "-"}')
 				mutant_meta.append((mutant, label, ident))
@@ -179,6 +189,21 @@ class Engine:
 						ctx.fail('corr', f'{net.name}.{type_name}: decode of {label} mutant differs (implementation {status})', dict(info, model=model_answer[:400], implementation=decoded))
 				elif 'ok' == status:
 					ctx.fail('corr', f'{net.name}.{type_name}: implementation accepts a {label} mutant the model rejects ({model_answer})', dict(info, implementation=decoded))
+
+	def has_empty_self_tested_member(self, type_name, value):
+		if not isinstance(value, dict) or 's' not in value:
+			return False
+		typedef = self.net.types[value['s']]
+		members = dict((name, item) for name, item in value['f'])
+		for field in typedef['fields']:
+			item = members.get(field['name'])
+			if field['cond'] and field['cond']['viaSelf'] and isinstance(item, dict) and 'b' in item and not item['b']:
+				return True
+			if isinstance(item, dict) and 's' in item and self.has_empty_self_tested_member(item['s'], item):
+				return True
+			if isinstance(item, list) and any(self.has_empty_self_tested_member(None, element) for element in item):
+				return True
+		return False
 
 	def check_ded(self, type_name, obj, decoded, info):
 		"""decode-encode-decode stability, directly on the implementation."""
